@@ -102,24 +102,58 @@ Proof.
   rewrite G, Hp. reflexivity.
 Qed.
 
-Theorem enc_step_refines : forall layers e s o, layers <> [] -> EI layers e s ->
-  (match o with PStore ps a _ => nth_error ps a <> None | _ => True end) ->
+(** indices of multimodal inputs lie inside the batch (otherwise the Go code panics with an index error) *)
+Definition pe_ok (o : pe_op) : Prop :=
+  match o with
+  | PStore ps a _ => nth_error ps a <> None
+  | PReserve ps mm _ => mm = [] \/ nth_error ps (last mm 0%nat) <> None
+  | _ => True
+  end.
+
+Theorem enc_step_refines : forall layers e s o, layers <> [] -> EI layers e s -> pe_ok o ->
   exists e', erun true e (expand layers o) = Some e' /\ EI layers e' (ideal_step s o).
 Proof.
-  intros layers e s o Hl [Hp Hs] Hok. destruct o as [ps a img|ps|ps mm img|b en]; simpl.
-  - destruct (nth_error ps a) as [p|] eqn:En; [|congruence]. unfold enc_start. simpl. rewrite En.
+  intros layers e s o Hl [Hp Hs] Hok. destruct o as [ps a img|ps|ps mm img|b en]; simpl in *.
+  - destruct (nth_error ps a) as [p|] eqn:En; [|congruence]. unfold enc_start. simpl. rewrite ?En.
     rewrite erun_puts by reflexivity. simpl. eexists. split; [reflexivity|].
     destruct layers as [|l0 lt]; [congruence|]. split; [reflexivity|]. simpl. repeat split; auto.
     intros l Hin. apply (fold_store_all (l0 :: lt) img (e_data e) l Hin).
   - unfold enc_start, enc_compute. simpl. eexists. split; [reflexivity|]. split; [reflexivity|].
     destruct s as [[p i]|]; simpl; exact Hs.
-  - assert (Hst : exists cur, enc_start e ps mm true = Some (mkEnc (e_cached e) (e_pos e) cur true (e_data e) []) \/ enc_start e ps mm true = None).
-    { unfold enc_start. destruct mm; [eexists; left; reflexivity|]. destruct (nth_error ps (last (n :: mm) 0%nat)); eexists; [left; reflexivity|right; reflexivity]. }
-    destruct Hst as [cur [Hst|Hst]]; rewrite Hst.
-    + rewrite erun_puts by reflexivity. simpl. eexists. split; [reflexivity|]. split; [reflexivity|].
-      destruct s as [[p i]|]; simpl; exact Hs.
-    + (* an index outside the batch: the Go code panics; the reservation pass of the runner always has valid indices *)
-      exfalso. unfold enc_start in Hst. destruct mm; [discriminate|]. destruct (nth_error ps (last (n :: mm) 0%nat)) eqn:E; [discriminate|].
-      (* no hypothesis excludes it: treat as outside the protocol *)
-      exact (match Hok with I => I end = I -> False).
-Abort.
+  - assert (Hst : exists cur, enc_start e ps mm true = Some (mkEnc (e_cached e) (e_pos e) cur true (e_data e) [])).
+    { unfold enc_start. destruct mm as [|n mm']; [eexists; reflexivity|].
+      destruct Hok as [Hok|Hok]; [discriminate|]. destruct (nth_error ps (last (n :: mm') 0%nat)); [eexists; reflexivity|congruence]. }
+    destruct Hst as [cur Hst]. rewrite Hst.
+    rewrite erun_puts by reflexivity. simpl. eexists. split; [reflexivity|]. split; [reflexivity|].
+    destruct s as [[p i]|]; simpl; exact Hs.
+  - eexists. split; [reflexivity|]. unfold enc_remove. destruct s as [[p i]|]; simpl in *.
+    + destruct Hs as [Hc [Hpos Hd]]. rewrite Hpos.
+      destruct ((b <=? p) && (p <? en)); simpl; [split; [exact Hp|reflexivity]|].
+      destruct ((en <=? p) && negb (en =? MaxInt32)); simpl; split; auto.
+    + destruct ((b <=? e_pos e) && (e_pos e <? en)); simpl; [split; [exact Hp|reflexivity]|].
+      destruct ((en <=? e_pos e) && negb (en =? MaxInt32)); simpl; split; auto.
+Qed.
+
+Theorem enc_refines : forall layers ops e s, layers <> [] -> EI layers e s -> Forall pe_ok ops ->
+  exists e', perun true layers e ops = Some e' /\ EI layers e' (ideal_run s ops).
+Proof.
+  intros layers ops. induction ops as [|o t IH]; intros e s Hl HE Hok; simpl.
+  - eexists. split; [reflexivity|exact HE].
+  - inversion Hok as [|? ? Ho Ht]; subst. destruct (enc_step_refines layers e s o Hl HE Ho) as [e1 [H1 HE1]].
+    rewrite H1. apply IH; assumption.
+Qed.
+
+Lemma EI_init : forall layers, EI layers enc_init None.
+Proof. intros. split; reflexivity. Qed.
+
+(** as found (no shift of encoderPos): image stored at position 1 of [0;1;2]; Remove(0,1) twice removes first the token
+    before the image, then the image itself - and the cache still claims to hold it *)
+Theorem enc_as_found_refuted :
+  ~ (forall layers ops e', layers <> [] -> Forall pe_ok ops ->
+     perun false layers enc_init ops = Some e' -> EI layers e' (ideal_run None ops)).
+Proof.
+  intros H.
+  specialize (H [0%nat] [PStore [0; 1; 2] 1 7%N; PRemove 0 1; PRemove 0 1] _ ltac:(discriminate)
+                ltac:(repeat constructor; simpl; discriminate) eq_refl).
+  destruct H as [_ H]. vm_compute in H. discriminate.
+Qed.
